@@ -298,7 +298,8 @@ TxStep(m, ev) ==
     IF r.fail # "" \/ ~Has(ev.choice, "corrupt") \/ r.m.pend.kind # "reply" THEN r
     ELSE LET c == ev.choice.corrupt  clean == r.m.pend.bytes  bad == Corrupt(clean, c) IN
          Good([r.m EXCEPT !.pend = [kind |-> "reply", bytes |-> bad, tell |-> [k |-> "none"]], !.corrupted = TRUE,
-                          !.last = [k |-> "corrupt", how |-> c[1], short |-> Len(bad) < StatusEnd(clean), encap |-> c[1] \in {"encap", "status32"} /\ c[2] # 0]])
+                          !.last = [k |-> "corrupt", how |-> c[1], short |-> Len(bad) < StatusEnd(clean), encap |-> c[1] \in {"encap", "status32"} /\ c[2] # 0,
+                                    lost |-> Len(clean) - Len(bad)]])
 
 (* ------------------------------------------------------------------------------------------------------------ *)
 NamesStatusT(texts, err, st) ==
@@ -320,7 +321,7 @@ RetStep(m, ev) ==
     ELSE IF api \in {"close", "exit"} /\ ~m.closeFault /\ m.alive /\ ev.faulted = 0
             /\ (m.sessions # {} \/ \E i \in 1..Len(m.conns) : m.conns[i].cid \in m.dConns) THEN Bad(m, "C10:target-dirty")
     ELSE IF api \in {"open", "enter"} /\ m.policy # "SessionRefused" /\ ev.faulted = 0 /\ m.alive
-            /\ ~(ev.outcome = "value" /\ ev.connected = 1) /\ ~(m.kind = "logix" /\ m.policy = "AllRefused") THEN Bad(m, (IF m.closedOnce THEN "C10:reopen" ELSE "C10:open-failed") \o (IF m.lx.on THEN "+C05:upload-failed" ELSE ""))
+            /\ ~(ev.outcome = "value" /\ ev.connected = 1) /\ ~(m.kind = "logix" /\ m.policy = "AllRefused") /\ ~(m.lx.on /\ m.lx.upl.refused) THEN Bad(m, (IF m.closedOnce THEN "C10:reopen" ELSE "C10:open-failed") \o (IF m.lx.on THEN "+C05:upload-failed" ELSE ""))
     ELSE IF api = "generic" THEN
         LET it == m.call.intent  tg == ev.result.tags IN
         IF ev.outcome # "value" THEN (IF m.nIntent = 0 \/ ev.faulted = 1 \/ m.last.k \in {"none", "corrupt"} THEN Good(m) ELSE Bad(m, "C13:exception-on-reply"))
@@ -371,6 +372,11 @@ RetStep(m, ev) ==
         IF ev.outcome # "value" THEN Good(m)
         ELSE IF m.ntx = 1 /\ m.last.short /\ (\E i \in 1..Len(tgs) : TagTruthy(tgs[i])) THEN Bad(m, "C13:short-reply-success")
         ELSE IF m.ntx = 1 /\ m.last.encap /\ (\E i \in 1..Len(tgs) : TagTruthy(tgs[i])) THEN Bad(m, "C13:success-on-error")
+        \* the only reply of a single read lost its tail (well framed, status 0): the data is shorter than what was addressed
+        \* (timer / counter sub-elements are read as whole elements of which only a part is used: not demanded there)
+        ELSE IF m.ntx = 1 /\ api = "read" /\ Len(tgs) = 1 /\ m.last.how = "trunc" /\ m.last.lost > 0 /\ TagTruthy(tgs[1])
+                /\ Len(m.call.intent.items) = 1 /\ Opt(m.call.intent.items[1], "sub", "") = ""
+             THEN Bad(m, "C13:truncated-data-success+C18:short-data+C01:short-data")
         ELSE IF \E i \in 1..Len(tgs) : ~TagTruthy(tgs[i]) /\ (~IsS(tgs[i].error) \/ Len(tgs[i].error.s) = 0)
                                         /\ ~(api = "write" /\ tgs[i].value = [none |-> 1])        \* writing None: unspecified
              THEN Bad(m, "C13:empty-error")
